@@ -52,10 +52,40 @@ def run(tier):
         ck._distinct.update(("%s:%d" % (trace, i)).encode() for i in range(n * 6))
         ck.cov["evaluations"] += n * 5
     strings_machine(ck, tier, wd, exe)
+    objects_machine(ck, tier, wd, exe)
     ck.assumptions += ["string indices inside payloads are located by hook H3 (NiStringRef::Write) while Put()-ing a clone of the model's block",
                        "files of versions without a size table (Oblivion) are walked with the sizes measured by Put()",
                        "edit operations that crash on synthesised models are other properties' concern and are discarded here"]
     return ck.finish()
+
+
+def objects_machine(ck, tier, wd, exe):
+    """A NifFile object as a container (NifObj.tla): TLC enumerates every history of up to L calls out of {load A / B / U (A with
+    one type unknown), create SSE / OB, add a node, assign from / CopyFrom a donor object, clear, raw save, reload the donor};
+    at every save the harness builds a fresh object with the content the machine says X holds (load or create, then the nodes)
+    and both must write the same bytes (also with the default options at the end); the written file is judged by
+    NifWire!WellFormedViol."""
+    L = 4 if tier == "quick" else 5
+    cfg = os.path.join(wd, "objects_mc.cfg")
+    open(cfg, "w").write("SPECIFICATION Spec\nCONSTANTS L = %d\n Export = TRUE\nINVARIANT Emit\nCHECK_DEADLOCK FALSE\n" % L)
+    cases = os.path.join(wd, "objects_cases.ndjson")
+    r = vlib.tlc("NifObjMC", cfg, workers=8, timeout=3000, export_to=cases, tag="c07-objects-mc", heap="8g")
+    ck.add_tlc("NifObjMC(L=%d)" % L, r, "call histories on one object and its donor")
+    if r.rc != 0 or r.exported != r.distinct:
+        raise vlib.InfraError("NifObjMC: rc=%d exported %d of %d" % (r.rc, r.exported, r.distinct))
+    tr = os.path.join(wd, "objects_trace.ndjson")
+    rc, out, err = vlib.run_harness(exe, ["c07-objects", cases, tr], timeout=6000)
+    if rc != 0:
+        raise vlib.InfraError("c07-objects failed: " + err[-1500:])
+    lines = c01.judge(ck, "C07", tr, "objects")
+    nsave = sum(1 for x in lines if x.startswith('{"e":"objsave"'))
+    ncrash = sum(1 for x in lines if x.startswith('{"e":"crash"'))
+    if nsave + ncrash * 200 * L < r.exported:
+        raise vlib.InfraError("c07-objects judged %d saves for %d histories" % (nsave, r.exported))
+    ck.cov["evaluations"] += nsave
+    ck._distinct.update(("ob%d" % i).encode() for i in range(nsave))
+    ck.cov["object_histories"] = {"L": L, "histories": r.exported, "saves_judged": nsave}
+    os.remove(cases)
 
 
 def strings_machine(ck, tier, wd, exe):
